@@ -21,6 +21,8 @@ def run(ctx):
     kinds = ["random"] * n + ["equal_rates", "high_ratio", "trainable", "trainable", "sink_tie", "sink_tie", "raw_sinks", "raw_sinks"]
     tasks = [dict(fn="tasks_rt:sched_case", args=dict(seed=s, spec_kind=k), timeout=1200) for s, k in zip(seeds, kinds)]
     tasks.append(dict(fn="tasks_rt:compiled_case", args=dict(seed=seeds[-1] + 1, spec_kind="high_ratio", modes=("GENERATIONAL", "TOPOLOGICAL"), prunes=(True,)), timeout=1200))
+    # the witness of the known finding c6_needed_beyond_horizon: a fixed graph with fixed record lengths (no schedule dependence)
+    tasks.append(dict(fn="tasks_rt:sched_case", args=dict(seed=303971950, spec_kind="trainable", modes=("MCS",), prunes=(False,), graph_file="c07_finding_graph.json"), timeout=1200))
     good = ac.pool_cases(tasks, res, timeout=1200)
     cmds, meta = [], []
     for t, r in good:
@@ -51,8 +53,45 @@ def run(ctx):
             res.fail("window_oracle", f"seed={t['args']['seed']} ({t['args']['spec_kind']}) {it['mode']} prune={it['prune']} episode {it['episode']}: {wb}",
                      dict(task=t, spec=r["spec"], mode=it["mode"], prune=it["prune"], episode=it["episode"]))
         if not o["ok"]:
-            res.fail("invalid_schedule", f"seed={t['args']['seed']} ({t['args']['spec_kind']}) {it['mode']} prune={it['prune']} episode {it['episode']}: Graph.timings violates: {'; '.join(o['failing'])}",
-                     dict(task=t, spec=r["spec"], mode=it["mode"], prune=it["prune"], episode=it["episode"], failing=o["failing"]))
+            failing = list(o["failing"])
+            c6f = [x for x in failing if x.startswith("c6")]
+            if c6f and o.get("c6_missing"):
+                # which owed vertices have no slot, and is each of them needed by a recorded supervisor step beyond the horizon?
+                inst = it["inst"]
+                cons = {}
+                for v in inst["verts"]:
+                    me = (v["kind"], v["seq"])
+                    if v["seq"] > 0:
+                        cons.setdefault((v["kind"], v["seq"] - 1), []).append(me)
+                    for w in v["wins"]:
+                        for sq in w[1]:
+                            if sq >= 0:
+                                cons.setdefault((w[0], sq), []).append(me)
+                beyond = []
+                for mk, ms in o["c6_missing"]:
+                    seen, todo, hit = set(), [(mk, ms)], None
+                    while todo and hit is None:
+                        x = todo.pop()
+                        if x in seen:
+                            continue
+                        seen.add(x)
+                        if x[0] == inst["sup"] and x[1] >= inst["parts"]:
+                            hit = x
+                        todo.extend(cons.get(x, []))
+                    beyond.append(hit)
+                names = [n["name"] for n in r["spec"]["nodes"]]
+                if all(b is not None for b in beyond):
+                    failing = [x for x in failing if not x.startswith("c6")]
+                    mk, ms = o["c6_missing"][0]
+                    res.fail("c6_needed_beyond_horizon", f"seed={t['args']['seed']} ({t['args']['spec_kind']}{', stored recorded graph harness/data/' + t['args']['graph_file'] if t['args'].get('graph_file') else ''}) {it['mode']} prune=False episode {it['episode']}: "
+                             f"step {ms} of {names[mk]} finishes before supervisor step {inst['parts'] - 1} of the horizon starts but has no slot; it is needed only by the recorded supervisor step {beyond[0][1]}, beyond the "
+                             f"horizon of {inst['parts']} steps ({len(o['c6_missing'])} such vertices)", dict(task=t, spec=r["spec"], mode=it["mode"], episode=it["episode"], missing=o["c6_missing"]))
+                else:
+                    bad = [(names[a], b) for (a, b), h in zip(o["c6_missing"], beyond) if h is None]
+                    failing = [x + f" (vertices {bad[:4]})" if x.startswith("c6") else x for x in failing]
+            if failing:
+                res.fail("invalid_schedule", f"seed={t['args']['seed']} ({t['args']['spec_kind']}) {it['mode']} prune={it['prune']} episode {it['episode']}: Graph.timings violates: {'; '.join(failing)}",
+                         dict(task=t, spec=r["spec"], mode=it["mode"], prune=it["prune"], episode=it["episode"], failing=failing))
         if it["episode"] > 0 or not it["prune"]:
             res.nontriv(dict(seed=t["args"]["seed"], mode=it["mode"], prune=it["prune"], e=it["episode"]))
         if len(res.samples) < 2:
